@@ -136,6 +136,20 @@ def main():
                         vo = sig.reshape(9, sig.shape[2], sig.shape[3])
                     out.write({"id": rid, "kind": "celldata", "nt": True, "name": name, "cd": [q(got[c], S) for c in range(got.shape[0])],
                                "qv": [[q(vo[:, qq, c], S) for qq in range(vo.shape[1])] for c in range(vo.shape[2])]})
+            # tools.save(gradient=...): the "Cauchy Stress" point data of the file = Cauchy stress shifted to the points (mean over cells)
+            rid = "topoints-save-cauchy-%s-%d" % (kind, rep)
+            if kind == "hex" and out.want(rid):
+                import meshio
+                import os
+                fn = "save_cauchy_%d.xdmf" % rep
+                fem.tools.save(f.region, f, forces=r, gradient=[P], filename=fn)
+                got = np.asarray(meshio.read(fn).point_data["Cauchy Stress"], float).reshape(mesh.npoints, 9)
+                sig = np.asarray(solid.evaluate.cauchy_stress(f), float).reshape(9, *f.region.dV.shape)       # (9, q, c)
+                out.write({"id": rid, "kind": "topoints", "nt": True, "np": int(mesh.npoints), "ncomp": 9, "cells": [qi(c) for c in mesh.cells],
+                           "vals": [[q(sig[:, a_, c], S) for a_ in range(sig.shape[1])] for c in range(sig.shape[2])], "tp": q(got, S)})
+                for f_ in os.listdir("."):
+                    if f_.startswith("save_cauchy_"):
+                        os.remove(f_)
             if kind.endswith("-ni"):
                 continue
             rid = "forcemoment-%s-%d" % (kind, rep)
